@@ -255,7 +255,7 @@ func zero(t types.Type) value {
 		}
 		return s
 	case *types.Chan:
-		return chan value(nil)
+		return (*vchan)(nil)
 	case *types.Map:
 		return (*omap)(nil)
 	case *types.Signature:
@@ -337,6 +337,29 @@ func (i *interpreter) lookup(instr *ssa.Lookup, x, idx value) value {
 
 // binop dispatches to the symbolic or the concrete implementation.
 func (i *interpreter) binop(op token.Token, t types.Type, x, y value) value {
+	if _, ok := x.(boxCell); ok && (op == token.EQL || op == token.NEQ) {
+		x = symBoxMarker{x}
+	}
+	if m, ok := x.(symBoxMarker); ok {
+		r := i.eqv(t, m.v, y)
+		if op == token.NEQ {
+			if b, ok := r.(bool); ok {
+				return !b
+			}
+			return i.boolv(i.m.C.Not(r.(symBool).t))
+		}
+		return r
+	}
+	if _, ok := y.(boxCell); ok && (op == token.EQL || op == token.NEQ) {
+		r := i.eqv(t, x, y)
+		if op == token.NEQ {
+			if b, ok := r.(bool); ok {
+				return !b
+			}
+			return i.boolv(i.m.C.Not(r.(symBool).t))
+		}
+		return r
+	}
 	if isSym(x) || isSym(y) {
 		return i.symBinop(op, t, x, y)
 	}
@@ -870,7 +893,21 @@ func (i *interpreter) unop(instr *ssa.UnOp, x value) value {
 		if g, ok := instr.X.(*ssa.Global); ok {
 			i.checkGlobal(g)
 		}
+		if i.raceID != "" {
+			i.access(p, false, "variable")
+		}
 		return load(mustDeref(instr.X.Type()), p)
+	}
+	if instr.Op == token.ARROW {
+		c, _ := x.(*vchan)
+		v, ok := i.chanRecv(c)
+		if !ok {
+			v = zero(instr.X.Type().Underlying().(*types.Chan).Elem())
+		}
+		if instr.CommaOk {
+			return tuple{v, ok}
+		}
+		return v
 	}
 	return unopConc(instr, x)
 }
@@ -878,7 +915,9 @@ func (i *interpreter) unop(instr *ssa.UnOp, x value) value {
 func unopConc(instr *ssa.UnOp, x value) value {
 	switch instr.Op {
 	case token.ARROW: // receive
-		v, ok := <-x.(chan value)
+		panic("receive must go through interpreter.chanRecv")
+		var v value
+		ok := false
 		if !ok {
 			v = zero(instr.X.Type().Underlying().(*types.Chan).Elem())
 		}
@@ -1043,12 +1082,15 @@ func callBuiltin(caller *frame, callpos token.Pos, fn *ssa.Builtin, args []value
 		return n
 
 	case "close": // close(chan T)
-		close(args[0].(chan value))
+		caller.i.chanClose(args[0].(*vchan))
 		return nil
 
 	case "delete": // delete(map[K]value, K)
 		switch m := args[0].(type) {
 		case *omap:
+			if caller.i.raceID != "" && m != nil {
+				caller.i.access(m, true, "map")
+			}
 			m.delete(caller.i, args[1])
 		default:
 			panic(fmt.Sprintf("illegal map type: %T", m))
@@ -1084,8 +1126,11 @@ func callBuiltin(caller *frame, callpos token.Pos, fn *ssa.Builtin, args []value
 			return x.len()
 		case symStr:
 			return len(x.cells)
-		case chan value:
-			return len(x)
+		case *vchan:
+			if x == nil {
+				return 0
+			}
+			return len(x.buf)
 		default:
 			panic(fmt.Sprintf("len: illegal operand: %T", x))
 		}
@@ -1098,8 +1143,11 @@ func callBuiltin(caller *frame, callpos token.Pos, fn *ssa.Builtin, args []value
 			return cap((*x).(array))
 		case []value:
 			return cap(x)
-		case chan value:
-			return cap(x)
+		case *vchan:
+			if x == nil {
+				return 0
+			}
+			return x.cap
 		default:
 			panic(fmt.Sprintf("cap: illegal operand: %T", x))
 		}
@@ -1665,3 +1713,5 @@ func (it *fixedOrderIter) next() tuple {
 	}
 	return tuple{false, nil, nil}
 }
+
+type symBoxMarker struct{ v value }
